@@ -51,9 +51,10 @@ def gen_cases(run, tier):
 
 def describe(pid, ev, pr):
     if pid == "C07":
-        return ("%s loader, input %s (%d bytes) cut at %d with %s under schedule %s: replay gave %d bytes "
+        return ("%s loader, input %s (%d bytes) cut at %d with %s under schedule %s, source %s, drained by %s: replay gave %d bytes "
                 "(%d matching) ending with %s%s" % (ev["loader"], ev["item"], ev["n"], ev["cut"], ev["fault"],
-                                                     ev["sched"], ev["replay_len"], ev["prefix"], ev["final"],
+                                                     ev["sched"], ev.get("shape"), ev.get("drain", "read%s copy-after %s" % (ev.get("drain_buf"), ev.get("drain_copy_after"))),
+                                                     ev["replay_len"], ev["prefix"], ev["final"],
                                                      ", PANIC" if ev["panic"] else ""))
     if pid == "C08":
         bad = [ev["outs"][i - 1] for i in pr.get("detail", [])[:3]]
@@ -130,8 +131,21 @@ def check(pid, tier, args):
     cases = gen_cases(run, tier)
     out = os.path.join(vlib.scratch(), "loads")
     os.makedirs(out, exist_ok=True)
+    extra = []
+    if pid == "C07":
+        # the ways a client may use a loader (spec/Usage.tla): the whole product, from TLC
+        ru = vlib.tlc("Usage", "Usage.cfg", heap="1g", workers=1)
+        if ru.violated or len(ru.printed) != ru.distinct:
+            raise vlib.Infra("Usage.tla did not print its combinations")
+        run.add_tlc("Usage (presentation x delivery x fault x drain)", ru)
+        up = os.path.join(out, "usage.ndjson")
+        with open(up, "w") as f:
+            for u in ru.printed:
+                f.write(json.dumps(u) + "\n")
+        run.cov["usage_combinations"] = len(ru.printed)
+        extra = ["-usage", up]
     p = vlib.run([drive, "loads", "-cases", ",".join(cases), "-out", out, "-tier", tier,
-                  "-seed", str(vlib.seed()), "-props", pid.lower(), "-repo", vlib.REPO], timeout=6000)
+                  "-seed", str(vlib.seed()), "-props", pid.lower(), "-repo", vlib.REPO] + extra, timeout=6000)
     stats = json.loads(p.stdout.strip().splitlines()[-1])
     trace = os.path.join(out, pid.lower() + ".ndjson")
     # 3. TLC judges every observation with LoadContract
